@@ -162,9 +162,16 @@ theorem step_local (s s' : RState) (t t' : Th) (hs : step s t = some (s', t')) (
       · left; rw [hasNode_filter_ne s m n e]; exact hh
     · simp [pend] at hp
   case removeNode.p4.isTrue n hc =>
-    exfalso
-    have : fault = some PC.p4 := by simpa [Th.fails] using hc
-    exact hf n rfl this
+    simp only [Bool.or_eq_true, Bool.not_eq_true'] at hc
+    rcases hc with hc | hc
+    · exfalso
+      have : fault = some PC.p4 := by simpa [Th.fails] using hc
+      exact hf n rfl this
+    · refine ⟨hinv, fun _ hn => Or.inl hn, fun _ _ hh => Or.inl hh, fun m hm hp => ?_⟩
+      have h1 : n = m := by simpa [pend] using hp
+      rw [← h1] at hm
+      have : s.res.contains n = true := by simpa using hm
+      rw [hc] at this; cases this
   case removeNode.p4.isFalse n _ =>
     have hact' : hasNode s n = false := hact
     refine ⟨⟨hinv.i1, ?_, hinv.i4⟩, fun m hm => Or.inl (List.mem_filter.mp hm).1, fun _ _ hh => Or.inl hh, fun m hm hp => ?_⟩
@@ -185,7 +192,7 @@ theorem step_local (s s' : RState) (t t' : Th) (hs : step s t = some (s', t')) (
       · rw [e]; exact hact'
       · exact hinv.i4 x e
     · simp [pend] at hp
-  case remove.p3.isFalse w _ =>
+  case remove.p5.isFalse w _ =>
     refine ⟨⟨hinv.i1, hinv.i2, fun x hx => hinv.i4 x (List.mem_filter.mp hx).1⟩,
       fun _ hn => Or.inl hn, fun _ _ hh => Or.inl hh, fun m _ hp => ?_⟩
     simp [pend] at hp
